@@ -1,1 +1,2 @@
 pub mod ax;
+pub mod core;
